@@ -61,6 +61,7 @@ type cfgInfo struct {
 	discard  string // late, but so was the machine
 	lateness time.Duration
 	onTime   bool
+	lifetime bool // standby, caller without deadline, threshold beyond the workers' default lifetime
 }
 
 // ---------------------------------------------------------------- building the plugin from config text
@@ -225,7 +226,12 @@ func cfgCells(rng *rand.Rand) []cell {
 				if d < 200 {
 					d = 200
 				}
-				mk("just-inside", func(c *cell) { c.PAtMs = s.effLo - d })
+				mk("just-inside", func(c *cell) {
+					c.PAtMs = s.effLo - d
+					if sb && c.PAtMs >= 4500 {
+						c.CtxKind = "deadline" // keep the workers' default 5 s lifetime out of it
+					}
+				})
 			}
 			if s.effUp <= maxOutside {
 				mk("outside", func(c *cell) {})
@@ -275,6 +281,24 @@ func (r *run) executeCfg() {
 		r.m.s = "held"
 	}
 	t0 := r.callStart()
+	if c.Standby && !r.hasDdl {
+		// The caller has no deadline: the workers then live on a default lifetime of
+		// their own (makeDdlCtx), and a standby secondary stops standing by when its
+		// own context ends. The statement does not say what a threshold beyond the
+		// workers' lifetime means for a primary that outlives its context, so the
+		// release of the standby answer is not "too early" from that (observed)
+		// deadline on.
+		r.mu.Lock()
+		w := r.w[roleS]
+		r.mu.Unlock()
+		if life := w.ddl.Sub(base) - t0; w.hasDdl && life < lo {
+			lo, r.thr = life, life
+			if life < up {
+				up = life
+			}
+			ci.lifetime = true
+		}
+	}
 	endWorker := func(role int) bool {
 		r.release(role)
 		r.actions++
@@ -440,6 +464,9 @@ func (r *run) cfgObservation() string {
 			parts = append(parts, "no S.start")
 		}
 	}
+	if r.cfg.lifetime {
+		parts = append(parts, fmt.Sprintf("[caller without deadline: standby release bounded by the secondary worker's own deadline %.0f ms after the call began]", float64(r.thr)/1e6))
+	}
 	return r.c.Place + ": " + strings.Join(parts, " ")
 }
 
@@ -470,7 +497,11 @@ func runCfgCell(c0 cell, local map[string]int64) {
 	rng := newSplitMix(c0.Seed)
 	report := func(c cell, res caseResult, fs []finding) {
 		for _, f := range fs {
-			rep.Violation("thr-"+c.CfgClass+"/"+f.Key, f.What+"; "+cfgDescribe(c), map[string]any{"cell": c, "events": res.r.snapshot(), "mismatch": res.r.mm})
+			note := ""
+			if res.r.cfg.lifetime {
+				note = fmt.Sprintf("; the caller has no deadline, so the bound applied here is not the configured threshold but the secondary worker's own (default) context deadline, %v after the call began", res.r.thr.Round(time.Millisecond))
+			}
+			rep.Violation("thr-"+c.CfgClass+"/"+f.Key, f.What+"; "+cfgDescribe(c)+note, map[string]any{"cell": c, "events": res.r.snapshot(), "mismatch": res.r.mm})
 		}
 		if violCases.Add(1) >= abortAfter {
 			aborted.Store(true)
@@ -538,6 +569,9 @@ func runCfgCell(c0 cell, local map[string]int64) {
 		rep.Nontrivial(res.fp)
 		local["nontrivial_cases"]++
 		local["cfg_judged:"+c.CfgClass+"/"+c.Place]++
+		if ci.lifetime {
+			local["cfg_standby_cases_bounded_by_the_workers_default_lifetime(caller without deadline, threshold beyond it)"]++
+		}
 		switch c.Place {
 		case "outside":
 			local["cfg_failover_on_time"]++
